@@ -251,7 +251,7 @@ Section Splitters.
     (forall a x, safe (add a x)) -> safe (split_strings_slice isp add s a).
   Proof.
     intros Hadd. unfold split_strings_slice. destruct s as [|c r]; [triv|].
-    destruct (has_nul (c :: r)); [triv|]. apply sss_loop_safe; [exact Hadd|].
+    destruct (has_nul (c :: r) || has_invalid (c :: r)); [triv|]. apply sss_loop_safe; [exact Hadd|].
     unfold strip_bom. destruct (c =? 65279); cbn [length]; lia.
   Qed.
 
@@ -284,7 +284,7 @@ Section Splitters.
   Lemma split_map_safe {A} fixed (add : A -> str -> str -> outcome A) s a :
     (forall a k v, safe (add a k v)) -> safe (split_map isp fixed add s a).
   Proof.
-    intros Hadd. unfold split_map. destruct (has_nul s); [triv|]. apply sm_loop_safe; [exact Hadd|].
+    intros Hadd. unfold split_map. destruct (has_nul s || has_invalid s); [triv|]. apply sm_loop_safe; [exact Hadd|].
     unfold strip_bom. destruct s as [|c r]; [cbn; lia|]. destruct (c =? 65279); cbn [length]; lia.
   Qed.
 
